@@ -5,9 +5,18 @@ from harness import core, pipe, pipecheck, pipeprops
 from harness.core import Failure, Result
 
 MANIFEST = dict(
-    pending="check runs (model lock-step + oracle) but its Coq theorems are still being proved; not claimed until coq/Props holds them",
     design_ref="DESIGN.md §6 C02",
-    text="Pipeline model in lock-step against the real observer on the real kernel (see C01); after every history a probe "
+    text="Coq theorems (coq/Props/C02.v) about the reader+kernel model: wf_fs preserved by every operation (C02_wf_preserved); "
+         "walk_dirs lists exactly the directories below a path (C02_walk_dirs); construction covers every directory (recursive) / "
+         "only the root (non-recursive) (C02_construct_cover, C02_flat_watches); from a synchronised state one operation + a full "
+         "read re-establishes the cover invariant for touch/write/chmod/unlink, mkdir, rmdir, file renames (inside/in/out/replacing) "
+         "and a directory rename inside the tree incl. all sub-directories via the re-key loop and C14 (C02_cover_step, "
+         "C02_rekey_loop); by induction over histories of ANY length in which every operation is followed by a full read "
+         "(C02_cover_sequential_partial, C02_cover_from_start_partial); the probe law (C02_probe) and the non-recursive law "
+         "(C02_flat); the pinned code is refuted (C02_pinned_movein_refuted, C02_pinned_mkdir_rename_refuted). Stated, not proved "
+         "in general (C02_step_full): directory moved in (checked by vm_compute examples), moved out (known finding F10), directory "
+         "over empty directory, non-recursive/outside directory renames; bursts are carried by the sampled correspondence. "
+         "Pipeline model in lock-step against the real observer on the real kernel (see C01); after every history a probe "
          "file is created in EVERY directory of the final tree and must be reported under its real path (recursive) / only "
          "in the root (non-recursive); theorems in coq/Props/C02.v over the model.",
     note="Trusted: as C01. See coq/Props/C02.v for which part of the cover invariant is a theorem.",
